@@ -77,6 +77,10 @@ def read_task(prop, cfg, tier, seed):
             b = b0 + k
             e = files.word_at("img", bat_off + 8 * (b + b // cr), 8, "le")
             E.assume(spec.valid_payload_state(e % 8, has_parent))
+            if has_parent:
+                # a partially present block has a present sector-bitmap block
+                sb = files.word_at("img", bat_off + 8 * spec.bitmap_index(b, cr), 8, "le")
+                E.assume(core.sym_or(e % 8 != spec.PARTIALLY_PRESENT, sb % 8 == 6))
 
         j = E.var("j", 0, 1 << 50)
         vars_ = dict(size=size, bat_off=bat_off, sector=sector, count=count, j=j)
@@ -112,5 +116,51 @@ def read_task(prop, cfg, tier, seed):
         if ctx.obligation(bad, "read differs from the guest-visible content"):
             ctx.witness()
         return None
+
+    return ctx.run(body, cov_files=[SRC])
+
+
+def partial_runs_task(prop, cfg, tier, seed):
+    """Unit: real _iter_partial_runs(bitmap, start_idx, length) on a symbolic bitmap of nbytes bytes, start_idx enumerated,
+    length symbolic. The concatenated runs must expand to bits [start_idx, start_idx+length) of the bitmap, LSB first."""
+    from harness.common import Scenario
+
+    nbytes, start = cfg["nbytes"], cfg["start_idx"]
+    maxlen = min(cfg.get("max_len", 8 * nbytes - start), 8 * nbytes - start)
+    core.set_width(72)
+    m = load()
+    ctx = Ctx(prop, "vhdx.partial_runs", cfg, tier, seed, engine_kw=dict(max_decisions=400))
+
+    def body(E, ctx):
+        length = E.var("length", 1, maxlen)
+        bitmap = SymBytes([Seg("file", "bm", 0, nbytes)])
+        bs = [files.byte_at("bm", k) for k in range(nbytes)]
+        i = E.var("i", 0, maxlen - 1)
+        vars_ = dict(length=length, i=i, **{f"b{k}": b for k, b in enumerate(bs)})
+
+        def build(model):
+            return dict(entry="vhdx_partial_runs", params={}, files={},
+                        call=["partial_runs", bytes(mi(model, b) for b in bs).hex(), start, mi(model, length)])
+
+        def expect(model, desc):
+            data = bytes(mi(model, b) for b in bs)
+            n = mi(model, length)
+            return dict(bits=[(data[(start + k) // 8] >> ((start + k) % 8)) & 1 for k in range(n)])
+
+        ctx.scenario = Scenario(vars_, build, expect)
+        runs = list(m._iter_partial_runs(bitmap, start, length))
+        pos = 0
+        # bit start+i of the bitmap
+        bit = 0
+        for k in range(nbytes - 1, -1, -1):
+            sel = (bs[k] >> ((start + i) % 8)) & 1
+            bit = sel if k == nbytes - 1 else core.ite((start + i) // 8 == k, sel, bit)
+        bad = []
+        for (t, c) in runs:
+            bad.append(c < 1)
+            bad.append(core.sym_and(i < length, i >= pos, i < pos + c, bit != t))
+            pos = pos + c
+        bad.insert(0, pos != length)
+        ctx.obligation(bad, "runs do not expand to the bitmap bits")
 
     return ctx.run(body, cov_files=[SRC])
